@@ -1,0 +1,19 @@
+//go:build verif
+// +build verif
+
+package gmtls
+
+// Hooks for the verification harness (build tag "verif" only): read access to a cached client session
+// and a copy of it carrying other ticket bytes (to present an altered ticket to a server).
+
+// VerifSessionInfo returns the ticket, master secret, version and cipher suite of a cached session.
+func VerifSessionInfo(cs *ClientSessionState) (ticket, master []byte, vers, suite uint16) {
+	return cs.sessionTicket, cs.masterSecret, cs.vers, cs.cipherSuite
+}
+
+// VerifSessionWithTicket returns a copy of cs whose ticket is replaced.
+func VerifSessionWithTicket(cs *ClientSessionState, ticket []byte) *ClientSessionState {
+	c := *cs
+	c.sessionTicket = ticket
+	return &c
+}
